@@ -360,3 +360,23 @@ def added_to(b, b0, hashes):
             and b._els_added == b0._els_added + 1 and len(b._bloom) == len(b0._bloom)
             and b._num_bits == b0._num_bits and b._number_hashes == b0._number_hashes and b._bloom_length == b0._bloom_length
             and b._est_elements == b0._est_elements and b._fpr == b0._fpr and b._hash_func == b0._hash_func)
+
+
+def g_exp(s, total):
+    """C09 ghost invariant: every sub-filter but the newest is exactly full, the newest is non-empty once there
+    are several, and `total` (the number of effective insertions) is the sum of the sub-filters' counters"""
+    return (all(len(s._blooms[q]._bloom) >= 0 and s._blooms[q]._els_added == eb_est(s) for q in range(0, len(s._blooms) - 1))
+            and (len(s._blooms) == 1 or s._blooms[len(s._blooms) - 1]._els_added >= 1)
+            and total == (len(s._blooms) - 1) * eb_est(s) + s._blooms[len(s._blooms) - 1]._els_added)
+
+
+def g_rot(s, hx, slot, after, age):
+    """C10 ghost invariant for one key (hash list hx) inserted when it was reported absent:
+    slot = index of the sub-filter holding it, after = later insertions into that sub-filter,
+    age = effective insertions since the key's own"""
+    n = len(s._blooms)
+    return (0 <= slot < n and sub_reports(s._blooms[slot], hx)
+            and 0 <= after <= s._blooms[slot]._els_added - 1
+            and s._blooms[n - 1]._els_added >= 1
+            and all(len(s._blooms[q]._bloom) >= 0 and s._blooms[q]._els_added == eb_est(s) for q in range(slot, n - 1))
+            and age == (after if slot == n - 1 else after + (n - 2 - slot) * eb_est(s) + s._blooms[n - 1]._els_added))
